@@ -24,7 +24,7 @@ def _patched():
     import numpy
     from orquestra.quantum.measurements import measurements as MM
 
-    return ST.patched((MM, "np", ZerosObjProxy(numpy)))
+    return ST.patched((MM, "np", ZerosObjProxy(numpy)), (MM, "float", ST.float_shadow))
 
 
 def eig(bits, qubits):
@@ -45,7 +45,10 @@ def work(item):
     res = Result(f"{kind}|{p['label']}")
     from orquestra.quantum.measurements import measurements as MM, parities as PA
 
-    res.fn(MM.get_expectation_value_from_frequencies, MM._convert_bitstrings_to_vector, PA.check_parity_of_vector, MM.Measurements.get_expectation_values, MM.Measurements.get_counts, MM.Measurements.add_counts, MM.Measurements.from_counts, MM.Measurements.get_distribution, PA.get_parities_from_measurements)
+    try:  # evidence only: a renamed private helper must not break the check
+        res.fn(MM.get_expectation_value_from_frequencies, MM._convert_bitstrings_to_vector, PA.check_parity_of_vector, MM.Measurements.get_expectation_values, MM.Measurements.get_counts, MM.Measurements.add_counts, MM.Measurements.from_counts, MM.Measurements.get_distribution, PA.get_parities_from_measurements)
+    except AttributeError:
+        pass
     res.d["cuts"].append("numpy proxy in measurements.py: fromiter/array/zeros give object arrays when an element is symbolic")
     try:
         {"freq": _w_freq, "stats": _w_stats, "counts": _w_counts, "parities": _w_parities}[kind](res, p)
@@ -207,6 +210,25 @@ def _w_counts(res, p):
         records.append(("distribution-is-counts-over-shots",) + ex.prove(z3.BoolVal(okd)))
         m2 = Measurements.from_counts(got)
         records.append(("get_counts-from_counts-inverse",) + ex.prove(z3.BoolVal(m2.get_counts() == got and sorted(m2.bitstrings) == sorted(m.bitstrings))))
+        # history: query, then grow the shot list (in place, by assignment, by add_counts), query again: every
+        # statistic is a function of the CURRENT shots
+        extra = tuple(int(ch) for ch in keys[0])
+        grown = {k: names[f"n_{k}"] for k in keys}
+        for how in ("in-place", "assignment", "add_counts"):
+            if how == "in-place":
+                m.bitstrings += [extra]
+            elif how == "assignment":
+                m.bitstrings = list(m.bitstrings) + [extra]
+            else:
+                m.add_counts({keys[0]: 1})
+            grown[keys[0]] = grown[keys[0]] + 1
+            now = m.get_counts()
+            cl = z3.And(*[grown[k] == now.get(k, 0) for k in keys] + [z3.BoolVal(set(now) <= set(keys)), sum(grown.values()) == len(m.bitstrings)])
+            records.append((f"counts-follow-the-shots-after-{how}-growth",) + ex.prove(cl))
+            dn = m.get_distribution().distribution_dict
+            Nn = len(m.bitstrings)
+            okn = all(abs(dn[tuple(int(ch) for ch in k)] - now[k] / Nn) <= 1e-12 for k in now) and len(dn) == len(now)
+            records.append((f"distribution-follows-the-shots-after-{how}-growth",) + ex.prove(z3.BoolVal(okn)))
         return got
 
     ex = ST.Explorer(base=base, timeout_ms=8000, int_bounds=(0, 3))
